@@ -24,6 +24,14 @@ def polygons(rng):
     """(name, polygon): convex, concave, biconcave, slivers, blocks that split when inset, real trench blocks"""
     k = rng.random()
     d = rng.choice([0.0005, 0.001, 0.002, 0.004, 0.01])
+    if k < 0.08:
+        # two very unequal squares joined by a neck narrower than two spacings: the block splits at the first inset and the
+        # small part is used up while the large one still has a wide interior (many turns: see run)
+        big, small = rng.uniform(40, 60) * d, rng.uniform(5, 9) * d
+        nw, nlen = rng.uniform(1.0, 1.6) * d, rng.uniform(2, 4) * d
+        p = unary_union([geometry.box(0, 0, big, big), geometry.box(big - d, (big - nw) / 2, big + nlen + d, (big + nw) / 2),
+                         geometry.box(big + nlen, (big - small) / 2, big + nlen + small, (big + small) / 2)])
+        return 'dumbbell', p, d
     if k < 0.2:
         w, h = rng.uniform(0.02, 0.5), rng.uniform(0.02, 0.3)
         return 'box', geometry.box(0, 0, w, h), d
@@ -177,7 +185,7 @@ def run(rep: common.Report, tier: str, seed: int):
         name, poly, d = directed[it] if it < len(directed) else polygons(rng)
         if not poly.is_valid or poly.is_empty or poly.geom_type != 'Polygon':
             continue
-        turns = 3 if name == 'U-directed' else rng.randint(2, 8)
+        turns = 3 if name == 'U-directed' else (rng.randint(6, 10) if name == 'dumbbell' else rng.randint(2, 8))
         if poly.area / (d * d) > 4e5:      # keep the number of hatch lines / insets manageable
             d = math.sqrt(poly.area / 4e5)
         r = run_one(poly, d, turns)
